@@ -373,6 +373,8 @@ func emitSelect(c *hx.Ctx, scope []string, s []byte, how string) {
 }
 
 func Run(c *hx.Ctx) {
+	// hx seeds are affine in VERIF_SEED (seed k+1 replays seed k shifted by one draw): decorrelate them here
+	c.Rng = c.Rng.Fork()
 	log.DefaultLogger.SetLogLevel(log.FATAL)
 	log.Proxy.SetLogLevel(log.FATAL)
 	ms := matchers()
@@ -451,5 +453,16 @@ func Run(c *hx.Ctx) {
 	}
 	for _, t := range texts {
 		emitSelect(c, all, []byte(t), "text")
+	}
+	// known ambiguity (KNOWN_FINDINGS.txt): a bolt/boltv2 frame that the decoders accept but whose bytes [4:6] equal the
+	// dubbothrift magic (bolt: ver2 = 0xda, request id 0xbc……; boltv2: cmd code 0x..da, ver2 = 0xbc)
+	for i := 0; i < 4; i++ {
+		f := framegen.Bolt(c.Rng, i%2 == 1, true)
+		f.Bytes[4], f.Bytes[5] = 0xda, 0xbc
+		if o := framegen.DecodeOnce(f.Proto, f.Bytes); o.Class != "frame" {
+			continue
+		}
+		emitSelect(c, []string{"thrift", f.Proto}, f.Bytes, "ambiguous-thrift-first")
+		emitSelect(c, []string{f.Proto, "thrift"}, f.Bytes, "ambiguous-bolt-first")
 	}
 }
